@@ -21,3 +21,15 @@ def fill(check, NA):
           "with the product of the generators' Ad matrices; NotImplementedError operations recorded as out of scope, any other exception is a violation",
           "trusted: numpy inverse, scipy expm; vee by least squares against the library's own wedge basis",
           "bounded exhaustive exploration: alphabet products + explicit-state BFS over operation words vs matrix conjugation reference", "DESIGN.md section 4 C04")
+
+    check("C05", "exploration",
+          "exhaustive product over the so(3)/se(3)/se_2(3) algebra alphabets (angles 0..6.2 rad incl. harvested switch neighbours, all unit directions through the full matrix) against the Frechet "
+          "derivative of the reference expm; inverse, Ad and Q-block identities; quaternion (both signs) and MRP (inside/shadow) kinematic Jacobians against the exact derivative of the textbook maps",
+          "trusted: scipy expm_frechet, mpmath central difference; inverse identities scaled by cond",
+          "bounded exhaustive input enumeration with branch-boundary harvesting vs differential of reference expm", "DESIGN.md section 4 C05")
+    check("C06", "exploration",
+          "every series table entry (compiled program run in 60-digit arithmetic through sxvm, conformance-gated bitwise against CasADi) vs the exact function on a lattice from 0 and denormals to 1 and on both "
+          "adjacent doubles of its own switch; every consumer (exp/log of 9 groups, so3/se3/se23 Jacobians and inverses) in double vs 50-digit references, jump across each harvested switch, "
+          "and finiteness of casadi.jacobian at and around zero",
+          "trusted: mpmath; double round-off of the table coefficients themselves is not judged; K01 (log AD at identity) is an open known finding",
+          "bounded exhaustive lattice enumeration + signature-flip bisection on the compiled programs, multi-domain interpretation of the real instruction list", "DESIGN.md section 4 C06")
